@@ -18,6 +18,8 @@
 //	Real trie fixtures
 //	  NewEnv(level) (*Env, error)         memorydb + real trieStorageManager + real patriciaMerkleTrie with
 //	                                      maxTrieLevelInMemory = level; Env{Trie, DB, TSM}
+//	  NewEnvWrapped(level, wrap)          same, but the storage manager sees wrap(memorydb) (a DBWriteCacher decorator:
+//	                                      fault / delay injection, Put counting); Env.DB is still the raw memorydb
 //	  (*Env).NewTrie(level)               another empty trie over the SAME storage (recreate with another level:
 //	                                      env.NewTrie(l2).Recreate(root))
 //	  (*Env).Close()                      stops the storage manager goroutine
@@ -253,9 +255,18 @@ type Env struct {
 
 // NewEnv builds the real trie over a fresh memorydb
 func NewEnv(maxTrieLevelInMemory uint) (*Env, error) {
+	return NewEnvWrapped(maxTrieLevelInMemory, nil)
+}
+
+// NewEnvWrapped is NewEnv with a decorator around the memorydb handed to the storage manager (nil = none)
+func NewEnvWrapped(maxTrieLevelInMemory uint, wrap func(data.DBWriteCacher) data.DBWriteCacher) (*Env, error) {
 	db := memorydb.New()
+	var store data.DBWriteCacher = db
+	if wrap != nil {
+		store = wrap(db)
+	}
 	tsm, err := trie.NewTrieStorageManager(trie.NewTrieStorageManagerArgs{
-		DB:               db,
+		DB:               store,
 		Marshalizer:      Marshalizer,
 		Hasher:           Hasher,
 		SnapshotDbConfig: config.DBConfig{FilePath: "/nonexistent-verif-snapshots", Type: "MemoryDB"},
